@@ -1205,6 +1205,12 @@ def mk_ite(c, a, b):
     b = simplify_under(b, c, False)
     if a == b:
         return a
+    # a zero branch: ite(c, 0, X) = [not c] X -- polynomial in the indicator, so that
+    # sums and products distribute over it (the indicator factor keeps the guard visible)
+    if a.is_zero():
+        return mk_ind(c_not(c)) * b
+    if b.is_zero():
+        return mk_ind(c) * a
     # ite(x<y, y, x) = max(x,y) ; ite(x<y, x, y) = min(x,y)  (also <=)
     if c.kind == "cmp" and c.args[0] in (">0", ">=0"):
         d = c.args[1]  # d > 0
